@@ -56,6 +56,39 @@ theorem roundtrip_post (norm denorm : ℝ → ℝ) (z trend mean : ℝ) (h : den
   have : mean + (norm (z - trend) - mean) = norm (z - trend) := by ring
   rw [this, h]; ring
 
+/-- the round trip on the model's own definitions: post-processing (`postCell`) undoes the data preparation
+    (`prepCond`) at datum `j`, whatever the mean and trend are, given `denorm ∘ norm = id` on the detrended datum -/
+theorem roundtrip_post_model (L : Layout) (norm denorm : ℝ → ℝ) (val trend mean : Nat → ℝ) (j : Nat) (hj : j < L.n)
+    (h : denorm (norm (val j - trend j)) = val j - trend j) :
+    postCell denorm (mean j) (trend j) (prepCond L norm val trend mean j) = val j := by
+  rw [C05.prepCond_data L norm val trend mean j hj]
+  unfold postCell
+  have : norm (val j - trend j) - mean j + mean j = norm (val j - trend j) := by ring
+  rw [this, h]; ring
+
+/-- **exact interpolation through mean, normaliser and trend**: with `M` inverting the assembled matrix and a
+    target coinciding with conditioning point `j` (so that mean and trend at the target are those at `j`), the
+    post-processed kriging field returns the conditioning value itself -/
+theorem exact_at_data_post (L : Layout) (C : Nat → Nat → ℝ) (err : Nat → ℝ) (F E : Nat → Nat → ℝ)
+    (c f e : Nat → Nat → ℝ) (M : Nat → Nat → ℝ)
+    (hMK : toMat L.size M * toMat L.size (assembleK L C err F E) = 1)
+    (norm denorm : ℝ → ℝ) (val trend mean : Nat → ℝ) (j p : Nat) (hj : j < L.n)
+    (hc : ∀ i, i < L.n → c i p = if i = j then C i j + err i else C i j)
+    (hf : ∀ r, f r p = F r j) (he : ∀ r, e r p = E r j)
+    (h : denorm (norm (val j - trend j)) = val j - trend j) :
+    postCell denorm (mean j) (trend j)
+      (krigeFieldCell M (assembleRHS L false c f e) (prepCond L norm val trend mean) L.size p ((0:Nat):ℝ)) = val j := by
+  have := (exact_at_data_model L C err F E c f e M hMK (fun i => norm (val i - trend i)) mean j p hj hc hf he 0).1
+  have h2 : prepCond L norm val trend mean = krigeCond L (fun i => norm (val i - trend i)) mean := rfl
+  rw [h2, this]
+  unfold postCell
+  have h3 : norm (val j - trend j) - mean j + mean j = norm (val j - trend j) := by ring
+  rw [h3, h]; ring
+
+/-- premises satisfiable with a genuinely non-linear pair: squaring and the positive root on a positive datum -/
+example : (fun y : ℝ => Real.sqrt y) ((fun x : ℝ => x * x) (3 - 1)) = 3 - 1 :=
+  Real.sqrt_mul_self (by norm_num : (0:ℝ) ≤ 3 - 1)
+
 /-- the returned variance is never negative -/
 theorem var_nonneg (sill q : ℝ) : 0 ≤ clipVar sill q := clipVar_nonneg sill q
 
